@@ -283,6 +283,8 @@ class Encoder(object):
         if k < 0.14 and self.mode == 64:
             return bytes([(reg & 7) << 3 | 5]) + b"\0\0\0\0", 0, 0, 'rip'
         base = r.randrange(nregs)
+        if r.random() < 0.12:
+            base = 4        # stack-pointer relative operands: the commonest memory operand of compiled code
         use_sib = r.random() < 0.45 or (base & 7) == 4
         dk = r.random()
         if dk < 0.35:
